@@ -88,6 +88,9 @@ def passThrough (b : Block V) : OBlk V := ⟨b.minTime, b.maxTime, b.pts⟩
 structure Cfg where
   size : Nat
   fast : Bool
+  /-- how `merge<T>()` orders `k.blocks`: the code calls `sort.Stable(k.blocks)` (the default).
+      A parameter so that the theorems can say what they need from it. -/
+  sort : (V : Type) → List (Block V) → List (Block V) := fun _ => Sort.stable blkLess
 
 /-- per-key state of `tsmBatchKeyIterator`: `k.blocks`, `k.merged<T>Values`, `k.merged`. -/
 structure KSt (V : Type) where
@@ -238,7 +241,7 @@ def needDedup (dedup0 : Bool) : List (Block V) → Bool
 def mergeStep (cfg : Cfg) (s : KSt V) : M (KSt V) :=
   if s.blocks.length = 0 ∧ s.merged.length = 0 ∧ s.mv.length = 0 then pure s
   else
-    let blocks := Sort.stable blkLess s.blocks
+    let blocks := cfg.sort V s.blocks
     combine cfg (needDedup (decide (s.mv.length ≠ 0)) blocks) { s with blocks := blocks }
 
 /-! ### the whole iterator -/
